@@ -161,6 +161,8 @@ def run(ctx):
                             continue
                         cases.append((op, keys, params))
             groups.append({'u': u, 'opts': {}, 'cases': cases})
+    from plans import mirrored_wrapper_groups
+    groups += mirrored_wrapper_groups(ctx, ['gp', 'op', 'ip', 'add', 'sub', 'sw'], n=2 if q else 8)
     run_plan(ctx, groups, budget=60)
     registered_variants(ctx)
     irrational_variants(ctx)
